@@ -27,3 +27,13 @@ Theorem C19_parse_identity : forall O w i h it e, nth_error (insts w) i = Some i
   step O w (OParseExpr i h) = (w, ObExpr (Ok (Some h))).
 Proof. exact parse_identity. Qed.
 Print Assumptions C19_parse_identity.
+
+(* The history model gives a query nothing to write to but the per-instance tokenizer cache, and keeps expression objects
+   immutable. For the source as read on this run that is what the code says: every statement that can change an object the running
+   call did not create itself (gen/Writes.v) stands in the tokenizer builders, in the publication of the tokenizer, or works on a
+   copy the same call chain has just made - no query assigns to an attribute or item of its Licensing, of an argument, of a
+   module-level name or of a class, nor calls a mutating method on one. *)
+Require Import Model.Writes Gen.Writes Tie.Writes.
+Theorem C19_no_hidden_state_for_this_source : confined writes = true /\ constants_untouched writes = true.
+Proof. exact writes_confined. Qed.
+Print Assumptions C19_no_hidden_state_for_this_source.
